@@ -233,10 +233,11 @@ class World:
             return
         if os.path.exists(os.path.join(d, CLUSTER_LOCK)):
             return   # not readable now
+        key = {k: v for k, v in st.items() if k != "marker"}
+        if not force and self.last_status.get(d) == key:
+            return     # nothing a reader of the status files could tell apart from the previous lock-free instant
+        self.last_status[d] = key
         st["rows"] = project.names_with_rows(d)
-        if not force and self.last_status.get(d) == st:
-            return
-        self.last_status[d] = st
         self.ev(e="status", pid=p.pid if p else 0, dir=self._dname(d), **st)
 
     def _snap_rows(self, d, p, lockname):
